@@ -15,6 +15,10 @@ func init() {
 	replayers["(*Raft).installSnapshot"] = replayInstallSnapshot
 	replayers["NewRaft"] = replayNewRaft
 	replayers["(*Raft).appendConfigurationEntry"] = replayAppendConfigurationEntry
+	replayers["(*Raft).VerifyLeader"] = replayQueuedFuture
+	replayers["(*Raft).ApplyLog"] = replayQueuedFuture
+	replayers["(*Raft).Barrier"] = replayQueuedFuture
+	replayers["(*Raft).initiateLeadershipTransfer"] = replayQueuedFuture
 }
 
 func mInt(m map[string]string, k string, def int64) int64 {
@@ -462,6 +466,74 @@ func TestGovcReplay(t *testing.T) {
 	if r.configurations.latestIndex > last {
 		t.Fatalf("latest_only_if_stored violated: the configuration entry could not be stored (the future failed with %q) but the new configuration is installed as latest at index %d while the log ends at %d", fut.Error(), r.configurations.latestIndex, last)
 	}
+}
+`
+	return "TestGovcReplay", test, true
+}
+
+// API enqueue functions: after Shutdown the run loops are gone; a call whose select picks the (buffered)
+// queue leaves a future nobody will serve. Without the shutdown escape its Error() blocks for ever.
+func replayQueuedFuture(m map[string]string, o *Oblig) (string, string, bool) {
+	if !strings.Contains(o.Name, "queued_future_has_shutdown_escape") {
+		return "", "", false
+	}
+	var call string
+	switch {
+	case strings.Contains(o.Name, "VerifyLeader"):
+		call = "r.VerifyLeader()"
+	case strings.Contains(o.Name, "ApplyLog"):
+		call = "r.ApplyLog(Log{Data: []byte(\"x\")}, 0)"
+	case strings.Contains(o.Name, "Barrier"):
+		call = "r.Barrier(0)"
+	default:
+		call = "r.LeadershipTransfer()"
+	}
+	test := `package raft
+
+import (
+	"testing"
+	"time"
+)
+
+func TestGovcReplay(t *testing.T) {
+	conf := DefaultConfig()
+	conf.LocalID = "me"
+	conf.skipStartup = true // no run loop: the state of a server whose loops have exited
+	conf.BatchApplyCh = true
+	store := NewInmemStore()
+	_, trans := NewInmemTransport("me")
+	r, err := NewRaft(conf, &MockFSM{}, store, store, NewInmemSnapshotStore(), trans)
+	if err != nil {
+		t.Fatal(err)
+	}
+	if err := r.Shutdown().Error(); err != nil {
+		t.Fatal(err)
+	}
+	queued, stranded := 0, 0
+	for i := 0; i < 40; i++ {
+		f := ` + call + `
+		if _, refused := f.(errorFuture); refused {
+			continue
+		}
+		queued++
+		done := make(chan error, 1)
+		go func() { done <- f.Error() }()
+		select {
+		case err := <-done:
+			if err != ErrRaftShutdown {
+				t.Fatalf("future resolved with %v, want ErrRaftShutdown", err)
+			}
+		case <-time.After(300 * time.Millisecond):
+			stranded++
+			if stranded >= 3 {
+				t.Fatalf("queued_future_has_shutdown_escape violated: after Shutdown, %d of %d calls were queued and %d of their futures never resolved (Error() still blocked after 300ms; nothing serves the queue and the future has no ShutdownCh)", queued, i+1, stranded)
+			}
+		}
+	}
+	if stranded > 0 {
+		t.Fatalf("queued_future_has_shutdown_escape violated: %d stranded futures", stranded)
+	}
+	t.Logf("after Shutdown: %d calls queued, all resolved with ErrRaftShutdown", queued)
 }
 `
 	return "TestGovcReplay", test, true
